@@ -48,7 +48,12 @@ def gen_expr(kind, sd):
         h = Operators(variant)
         gs = GroundState(h, first_order_singles=rng.random() < 0.3)
         which = rng.choice(["energy", "amp", "psi", "precursor", "matrix", "expec", "symdenom", "real",
-                            "operator"])
+                            "operator", "itmd"])
+        if which == "itmd":
+            from adcgen import Intermediates
+            nm = rng.choice(["t2eri_A", "t2eri_B", "t2eri_A", "t2_2", "p0_2_oo", "t2eri_4"])
+            ex = Intermediates().available[nm].expand_itmd(fully_expand=False).expand()
+            return ex.sympy, dict(ex.assumptions), "lib:itmd"
         if which == "operator":
             # operator matrices with unequal numbers of creators / annihilators: tensors with
             # only upper or only lower indices
@@ -117,6 +122,9 @@ def gen_expr(kind, sd):
             one = get_symbols(nm, sp_ * len(nm)) if sp_ else get_symbols(nm)
             t = t * (AntiSymmetricTensor("d", (), tuple(one)) if rng.random() < 0.5
                      else AntiSymmetricTensor("d", tuple(one), ()))
+        if kind == "plain" and rng.random() < 0.12:
+            from sympy import Float
+            t = t * Float(rng.choice(["0.5", "0.25", "1.5", "2.0"]))     # float prefactors (t2eri_A/B use them)
         if kind == "ops":
             k = rng.choice([1, 2])
             o = get_symbols(rng.sample("ijk", k))
